@@ -45,6 +45,22 @@ def blob(size: int, seed: int) -> bytes:
     return bytes(out[:size])
 
 
+def textlike(size: int, seed: int) -> bytes:
+    """Binary content that LOOKS like text to a reader that sniffs: only hex digits (even count when size is even), only decimal
+    digits, base64 alphabet with a final newline, or hex digits with white space.  Bytes are bytes: whatever reads a binary file
+    must deliver exactly these."""
+    kind = (seed // 4) % 4
+    raw = blob(size, seed)
+    if kind == 0:
+        return bytes(b"0123456789abcdefABCDEF"[x % 22] for x in raw)
+    if kind == 1:
+        return bytes(b"0123456789"[x % 10] for x in raw)
+    if kind == 2:
+        body = bytes(b"ABCDEFGHIJKLMNOPQRSTUVWXYZabcdefghijklmnopqrstuvwxyz0123456789+/"[x % 64] for x in raw)
+        return body[:-1] + b"\n" if body else body
+    return bytes(b"0123456789abcdef \n"[x % 18] if i % 9 == 8 else b"0123456789abcdef"[x % 16] for i, x in enumerate(raw))
+
+
 def seq_for(member: str, k: int):
     """A small command sequence, different per member."""
     base = {
